@@ -117,6 +117,43 @@ def pair(ctx, prop):
             raise vlib.Infra("PubSubPairMon did not consume the trace\n" + r.out[-2000:])
 
 
+def line(ctx, prop):
+    """PubSubLine.tla: three complete real nodes a - b - c; a published message has to be forwarded by the middle node over real links"""
+    import random
+    r = ctx.tlc("PubSubLine", cfg="MC_PubSubLine.cfg", timeout=900, count=False, workers=4)
+    hs = sorted({m.group(1).encode().decode("unicode_escape") for m in re.finditer(r'<<"HIST", "(.*)">>', r.out)})
+    if not hs:
+        raise vlib.Infra("PubSubLine printed no history")
+    random.Random(ctx.seed * 31 + 13).shuffle(hs)
+    behs = [json.loads(h) for h in hs[:(50 if ctx.tier == "quick" else 600)]]
+    bpath = os.path.join(ctx.tmp, "line_behaviours.json")
+    json.dump(behs, open(bpath, "w"))
+    tpath = os.path.join(ctx.tmp, "line_trace.ndjson")
+    ctx.go_run("twonode", ["-mode", "pubsubline", "-cases", bpath, "-out", tpath], timeout=3000)
+    rows = vlib.read_ndjson(tpath)
+    if len([x for x in rows if x["e"] == "reset"]) != len(behs):
+        raise vlib.Infra("twonode pubsubline: traces missing")
+    ctx.traces += len(behs)
+    ctx.evaluations += len([x for x in rows if x["e"] == "q"])
+    ctx.cov["three_node_line_histories"] = len(behs)
+    for h in behs:
+        ctx.nontrivial.add("line:" + json.dumps(h))
+    ok, r = ctx.tlc_validate("PubSubLineMon", "PubSubLineMon.cfg", tpath, env={"PROP": prop}, dfs=False, timeout=1800)
+    if not ok:
+        if r.violated == "NoViolation":
+            tail = r.out[r.out.rfind("/\\ bad ="):]
+            bads = re.findall(r'<<\s*"(C\d+)",\s*"([^"]*)",\s*(-?\d+)\s*>>', tail, re.S)
+            seen = set()
+            for b in [b for b in bads if b[0] == prop]:
+                if b[1] in seen:
+                    continue
+                seen.add(b[1])
+                h = behs[int(b[2])] if 0 <= int(b[2]) < len(behs) else None
+                ctx.violation("%s:line:%s" % (prop, b[1][:70]), "%s (three-node history %s)" % (b[1], [(s["a"], s["n"] or "-".join(s["e"])) for s in h] if h else "?"), {"history": h})
+        else:
+            raise vlib.Infra("PubSubLineMon did not consume the trace\n" + r.out[-2000:])
+
+
 def run(ctx):
     prop = ctx.prop
     ctx.assumptions = ["links between nodes are harness-mediated in-memory streams (wire tap, injection); the Execute loop's 100 ms sweep tick is waited out before every checkpoint",
@@ -169,6 +206,7 @@ def run(ctx):
             raise vlib.Infra("FloodSubMon did not consume the trace\n" + r.out[-2000:])
     # 2b. end to end on two complete nodes
     pair(ctx, prop)
+    line(ctx, prop)
     # 3. property-specific extras
     if prop in ("C28", "C29"):
         spath = os.path.join(ctx.tmp, "fs_stress.ndjson")
